@@ -283,6 +283,38 @@ macro_rules! alias_mod {
                         _ => unreachable!(),
                     }
                 }
+                // float weights at the per-length maximum MAX/len (accepted by new(), total beyond the envelope of the
+                // table / weights() checks): only the sampled frequencies are judged, against the input law
+                if IS_FLOAT {
+                    for len in [3usize, 5, 9, 25] {
+                        let m = (<$W>::MAX as f64 / len as f64) as W;
+                        let mut ws: Vec<W> = vec![0 as W; len];
+                        ws[0] = m;
+                        ws[1] = m;
+                        ws[2] = ((m as f64) / 2.0) as W;
+                        let d = match guarded(|| WeightedAliasIndex::new(ws.clone())) {
+                            Caught::Ok(Ok(d)) => d,
+                            _ => continue,
+                        };
+                        let scale = <$W>::MAX as f64;
+                        let tot: f64 = ws.iter().map(|w| *w as f64 / scale).sum();
+                        let law: Vec<f64> = ws.iter().map(|w| (*w as f64 / scale) / tot).collect();
+                        let sseed = rng.next();
+                        let mut counts = vec![0u64; len + 1];
+                        let r = guarded(|| {
+                            let mut fr = Fast(Xo::new(sseed), 0);
+                            for _ in 0..n_draws {
+                                let i: usize = d.sample(&mut fr);
+                                counts[i.min(len)] += 1;
+                            }
+                            fr.1
+                        });
+                        if let Caught::Ok(words) = r {
+                            emit(&json!({"ev": "alias_counts", "wt": NAME, "profile": profile, "len": len, "n": n_draws, "seed": sseed, "law": law, "counts": counts, "words": words,
+                                "weights": ws.iter().map(|w| format!("{w:?}")).collect::<Vec<_>>(), "near_max": true}));
+                        }
+                    }
+                }
                 json!({"ev": "alias_random", "wt": NAME, "profile": profile, "vectors": count, "built": acc.built, "rejected": acc.rejected, "table_checks": acc.table_checks,
                        "weights_checks": acc.weights_checks, "max_len": acc.max_len, "adv_execs": adv_execs, "violations": acc.nviol})
             }
